@@ -58,18 +58,24 @@ pub struct Split {
     pub leftovers: BTreeMap<Pid, f32>,
 }
 
+/// All 169 rank pairs with their combos (computed once).
+pub fn rank_pair_table() -> &'static Vec<(Rp, Vec<Pid>)> {
+    static TABLE: std::sync::OnceLock<Vec<(Rp, Vec<Pid>)>> = std::sync::OnceLock::new();
+    TABLE.get_or_init(|| all_rank_pairs().into_iter().map(|rp| (rp, rp_combos(rp))).collect())
+}
+
 pub fn split(range: &BTreeMap<Pid, f32>) -> Split {
     let mut complete = BTreeMap::new();
     let mut leftovers = range.clone();
-    for rp in all_rank_pairs() {
-        let combos = rp_combos(rp);
+    for (rp, combos) in rank_pair_table().iter() {
+        let rp = *rp;
         let first = match range.get(&combos[0]) {
             Some(w) => *w,
             None => continue,
         };
         if combos.iter().all(|c| range.get(c).is_some_and(|w| *w == first)) {
             complete.insert(rp, first);
-            for c in &combos {
+            for c in combos {
                 leftovers.remove(c);
             }
         }
